@@ -39,7 +39,7 @@ inductive Res (α : Type) where
   | ok (a : α)
   | throw (e : Exc)
   | ub (k : UBKind)
-  deriving Repr
+  deriving Repr, DecidableEq
 
 instance [Inhabited α] : Inhabited (Res α) := ⟨.ok default⟩
 
@@ -50,7 +50,7 @@ inductive Outcome (σ : Type) where
   | ok (s : σ)
   | throw (e : Exc) (left : σ)
   | ub (k : UBKind)
-  deriving Repr
+  deriving Repr, DecidableEq
 
 def Res.isUB : Res α → Bool | .ub _ => true | _ => false
 def Outcome.isUB : Outcome σ → Bool | .ub _ => true | _ => false
